@@ -21,6 +21,10 @@ import (
 
 type routesEngine struct{ n int }
 
+// rawLit is a string the program text spells as a RAW string literal ¬…¬ (the only token that may span lines: its
+// line breaks are the text's own line endings, CR LF under a CRLF layout)
+type rawLit struct{ lines []string }
+
 func init() { register("routes", &routesEngine{}) }
 
 func (e *routesEngine) preamble() []string { return []string{"init\t" + initPayload()} }
@@ -77,6 +81,8 @@ func layoutForm(r *rng, v MalType, crlf bool) string {
 			return seq("(", ")", t.Val)
 		case Vector:
 			return seq("[", "]", t.Val)
+		case rawLit:
+			return "¬" + strings.ReplaceAll(strings.Join(t.lines, nl), "¬", "¬¬") + "¬"
 		case string:
 			if !strings.HasPrefix(t, "\u029e") {
 				// the program text is written by the harness' own escaping (backslash, quote, newline — what the
@@ -127,6 +133,23 @@ func (e *routesEngine) generate(r *rng, n int, tier string, emit func(string)) {
 				ls(sy("let"), vc(sy("tag"), call1("quote", sy("circle"))), ls(sy("if"), call1("=", sy("tag"), call1("quote", sy("circle"))), "round", "angular")),
 				call1("=", call1("symbol", "a"), call1("quote", sy("a"))))))
 			names = append(names, "symeq")
+		}
+		if r.chance(1, 4) {
+			// a raw string spanning lines: what it holds between its lines is whatever the text has there
+			forms = append(forms, ls(sy("def"), sy("rawlen"), call1("list",
+				call1("=", rawLit{[]string{"first line", "second line"}}, "first line\nsecond line"),
+				call1("=", rawLit{[]string{"first line", "second line"}}, "first line\r\nsecond line"),
+				call1("=", rawLit{[]string{"a", "b"}}, "a\nb"), call1("str", "<", rawLit{[]string{"{\"k\": 1,", " \"j\": 2}"}}, ">"))))
+			names = append(names, "rawlen")
+		}
+		if r.chance(1, 4) {
+			// a macro whose expansion depends on a global read AT EXPANSION TIME, called from one call site that is
+			// evaluated twice with the global changed in between: every evaluation expands afresh, on every route
+			forms = append(forms, ls(sy("def"), sy("*scale*"), 1),
+				ls(sy("defmacro"), sy("scaled"), ls(sy("fn"), vc(sy("x")), call1("list", call1("quote", sy("*")), sy("x"), sy("*scale*")))),
+				ls(sy("def"), sy("sc"), ls(sy("fn"), vc(sy("v")), ls(sy("scaled"), sy("v")))),
+				ls(sy("def"), sy("sc1"), ls(sy("sc"), 10)), ls(sy("def"), sy("*scale*"), 3), ls(sy("def"), sy("sc2"), call1("list", sy("sc1"), ls(sy("sc"), 10))))
+			names = append(names, "sc2")
 		}
 		crlf := r.chance(1, 5)
 		nl := "\n"
